@@ -50,6 +50,8 @@ func c01Row(id int, ia, ib int) map[string]any {
 	}
 	// native integers whose %v text differs from the text of the equal float64 constant (1e+06)
 	row["K"] = []int{5, 1000000, 2000000, 1000001}[(ia+ib)%4]
+	// values and constants that single precision cannot hold
+	row["f"] = []float64{0.1, 0.3, 2.7, 16777217, 16777216, 0.30000000000000004}[(ia+2*ib)%6]
 	if ib%3 == 0 {
 		row["n"] = nil
 	} else {
@@ -80,6 +82,15 @@ func c01Atoms() (all []Expr, rep []Expr, small []Expr) {
 			all = append(all, Cmp{op, k, num(cst)}, Cmp{op, num(cst), k})
 		}
 		all = append(all, Cmp{op, k, a})
+	}
+	fcol := Col{"f"}
+	for _, op := range ops {
+		for _, cst := range []float64{0.1, 0.3, 2.7, 16777217} {
+			all = append(all, Cmp{op, fcol, num(cst)})
+		}
+	}
+	for _, neg := range []bool{false, true} {
+		all = append(all, In{X: fcol, List: []Expr{num(0.1), num(16777217)}, Neg: neg}, Between{X: fcol, Lo: num(0.1), Hi: num(0.3), Neg: neg}, Between{X: fcol, Lo: num(16777216.5), Hi: num(16777217), Neg: neg})
 	}
 	K := Col{"K"}
 	for _, op := range ops {
